@@ -439,7 +439,12 @@ class MPS:
                 self.tensors[current_orthogonality_center],
                 self.tensors[current_orthogonality_center + 1],
             )
-            a_new, b_new = two_site_svd(a, b, threshold=1e-12, max_bond_dim=None, min_bond_dim=min_bond_dim)
+            # The cut is relative to the weight of the two-site block, so that a centre shift does not depend on the
+            # overall scale of the state (an absolute cut removes most of a state whose norm is of order 1e-6)
+            block_weight = float(np.linalg.norm(np.tensordot(a, b, axes=(2, 1))) ** 2)
+            a_new, b_new = two_site_svd(
+                a, b, threshold=1e-12 * block_weight, max_bond_dim=None, min_bond_dim=min_bond_dim
+            )
             (
                 self.tensors[current_orthogonality_center],
                 self.tensors[current_orthogonality_center + 1],
